@@ -52,6 +52,8 @@ def shards(tier):
     out.append({"kind": "mixed-cipher"})
     out.append({"kind": "b64-chars"})
     out.append({"kind": "value-chars"})
+    out.append({"kind": "padding-lookalike"})
+    out.append({"kind": "mixed-mac-pairs"})
     out.append({"kind": "phrase-terminators"})
     out.append({"kind": "sequences"})
     out.append({"kind": "large"})
@@ -113,7 +115,8 @@ TERMINATED = ["s3cret", "s3cret\n", "s3cret\r\n", "s3cret\r", "s3cret ", " s3cre
 B64_BYTES = {"plus": b"\xfb\xef\xbe", "slash": b"\xff\xff\xff", "both": b"\xfb\xff\xbf\xfe\xfb\xff"}
 
 
-def build(cipher, mac, kdf, rounds, salt_len, phrase, cfg, layout, data_cipher=None, salt_kind=None, key_kind=None):
+def build(cipher, mac, kdf, rounds, salt_len, phrase, cfg, layout, data_cipher=None, salt_kind=None, key_kind=None,
+          wrong_mac=None):
     data_cipher = data_cipher or cipher
     salt = B.det_bytes("salt", salt_len)
     dk = B.det_bytes("datakey" + cipher, B.KEYLEN[data_cipher])
@@ -123,7 +126,7 @@ def build(cipher, mac, kdf, rounds, salt_len, phrase, cfg, layout, data_cipher=N
     if key_kind:
         dk = (B64_BYTES[key_kind] * 11)[:B.KEYLEN[data_cipher]]
     right, rblob = B.pair_text(phrase, kdf, cipher, rounds, salt, mac, data_cipher, dk, B.det_bytes("iv1", 16))
-    wrong, _ = B.pair_text(phrase + "#other", kdf, cipher, rounds, salt, mac, data_cipher, B.det_bytes("otherkey", B.KEYLEN[data_cipher]),
+    wrong, _ = B.pair_text(phrase + "#other", kdf, cipher, rounds, salt, wrong_mac or mac, data_cipher, B.det_bytes("otherkey", B.KEYLEN[data_cipher]),
                            B.det_bytes("iv2", 16), pid="other")
     pairs = {"one": [right], "wrong-right": [wrong, right], "right-wrong": [right, wrong], "three": [wrong, right, wrong]}[layout]
     data_blob = B.seal(dk, cfg.encode(), mac, B.det_bytes("iv3", 16))
@@ -169,6 +172,22 @@ def run_shard(shard, ctx):
                 for key_kind in ("plus", "slash", "both"):
                     run_case({"kind": "positive", "cipher": c, "mac": m, "kdf": KDFS[len(salt_kind) % 2], "rounds": 1, "salt": 16,
                               "phrase": 1, "len": 9, "layout": "one", "salt_kind": salt_kind, "key_kind": key_kind}, ctx)
+    elif kind == "padding-lookalike":
+        # configurations whose own last bytes look like an intact PKCS#7 padding (k bytes of value k): padding is always added
+        # on top, so nothing is ambiguous
+        tails = ["\n" * k for k in (1, 2, 9, 10, 11, 16)] + ["\t" * 9, "\r" * 13, "\x01", "\x02\x02", "\x0c" * 12, "\x10" * 16,
+                                                              "\x0b" * 11, "\x07" * 7, "\x03\x03\x03"]
+        for ti, (c, m) in itertools.product(range(len(tails)), itertools.product(CIPHERS, MACS)):
+            for ln in (5, 16 - len(tails[ti]) % 16, 37):
+                run_case({"kind": "positive", "cipher": c, "mac": m, "kdf": KDFS[ti % 2], "rounds": 1, "salt": 8, "phrase": 1,
+                          "len": max(3, ln), "layout": "one", "tail": tails[ti]}, ctx)
+    elif kind == "mixed-mac-pairs":
+        # several passphrase pairs with different MAC types: the data is verified with the MAC of the pair that was opened
+        for m_right, m_wrong in itertools.product(MACS, MACS):
+            for lay in ("wrong-right", "right-wrong", "three"):
+                for c in CIPHERS:
+                    run_case({"kind": "positive", "cipher": c, "mac": m_right, "wrong_mac": m_wrong, "kdf": KDFS[0], "rounds": 1,
+                              "salt": 16, "phrase": 2, "len": 23, "layout": lay}, ctx)
     elif kind == "value-chars":
         for ci, where in itertools.product(range(len(VALUE_CHARS)), ("middle", "twice", "start", "end")):
             run_case({"kind": "positive", "cipher": CIPHERS[ci % 3], "mac": MACS[ci % 3], "kdf": KDFS[ci % 2], "rounds": 1, "salt": 8,
@@ -286,6 +305,8 @@ def run_case(case, ctx):
         if case["kind"] == "positive":
             phrase = PHRASES[case["phrase"]]
             cfg = config_text(case["len"])
+            if case.get("tail") is not None:
+                cfg = config_text(case["len"]) + case["tail"]
             if case.get("value_char") is not None:
                 ch = VALUE_CHARS[case["value_char"]]
                 v = {"middle": "my old disk" + ch + "copy.vmdk", "twice": "a" + ch + "b" + ch + "memsize = 9", "start": ch + "x",
@@ -296,7 +317,7 @@ def run_case(case, ctx):
                 cfg = "\n".join(['%s = "decrypted-%d"' % (cs(n), i) for i, n in enumerate(case["override"])] + ['extra = "1"'])
             text, outer, rblob, dblob, salt, dk = build(case["cipher"], case["mac"], case["kdf"], case["rounds"], case["salt"],
                                                         phrase, cfg, case["layout"], case.get("data_cipher"),
-                                                        case.get("salt_kind"), case.get("key_kind"))
+                                                        case.get("salt_kind"), case.get("key_kind"), case.get("wrong_mac"))
             if case["layout"] != "one" or case["len"] == 0 or case["len"] >= 16:
                 ctx.nontrivial += 1
             v = VMX.parse(text)
